@@ -99,6 +99,12 @@ impl RuntimeError {
     ) -> Self {
         Self { kind, span, name: name.into(), ty }
     }
+
+    /// A dynamically typed value (parameter, array element, `pop()` result, ...) reached an
+    /// operator, condition, index or built-in that does not accept its runtime type.
+    fn type_mismatch(span: Span) -> Self {
+        Self::new(RuntimeErrorKind::TypeMismatch, span)
+    }
 }
 
 /// Maximum native stack bytes the runtime is allowed to consume.
@@ -392,6 +398,10 @@ impl<'a> Runtime<'a> {
                         span: err.span,
                         message: ArenaCow::Borrowed("Index value don pass array length"),
                     }],
+                    RuntimeErrorKind::TypeMismatch if err.name.is_empty() => vec![Label {
+                        span: err.span,
+                        message: ArenaCow::Borrowed("Dis value type no fit wetin dis operation dey expect"),
+                    }],
                     RuntimeErrorKind::TypeMismatch => vec![Label {
                         span: err.span,
                         message: ArenaCow::Owned(arena_format!(
@@ -470,9 +480,8 @@ impl<'a> Runtime<'a> {
                 let is_truthy = match val {
                     Value::Bool(b) => b,
                     Value::Null => false, // null is falsy
-                    _ => unreachable!(
-                        "Semantic analysis guarantees only boolean expressions in conditions"
-                    ),
+                    // Static typing cannot rule this out for dynamically typed conditions.
+                    _ => return Err(RuntimeError::type_mismatch(cond.span())),
                 };
                 if is_truthy {
                     self.exec_block_with_flow(then_b)
@@ -488,9 +497,7 @@ impl<'a> Runtime<'a> {
                     let should_continue = match val {
                         Value::Bool(b) => b,
                         Value::Null => false,
-                        _ => unreachable!(
-                            "Semantic analysis guarantees only boolean expressions in loop conditions"
-                        ),
+                        _ => return Err(RuntimeError::type_mismatch(cond.span())),
                     };
                     if !should_continue {
                         break;
@@ -646,7 +653,7 @@ impl<'a> Runtime<'a> {
                     match r {
                         Value::Bool(b) => Ok(Value::Bool(b)),
                         Value::Null => Ok(Value::Bool(false)),
-                        _ => unreachable!("Semantic analysis guarantees boolean expressions"),
+                        _ => Err(RuntimeError::type_mismatch(*span)),
                     }
                 }
                 BinaryOp::Or => {
@@ -658,7 +665,7 @@ impl<'a> Runtime<'a> {
                     match r {
                         Value::Bool(b) => Ok(Value::Bool(b)),
                         Value::Null => Ok(Value::Bool(false)),
-                        _ => unreachable!("Semantic analysis guarantees boolean expressions"),
+                        _ => Err(RuntimeError::type_mismatch(*span)),
                     }
                 }
                 _ => {
@@ -680,7 +687,7 @@ impl<'a> Runtime<'a> {
                             BinaryOp::Eq => Ok(Value::Bool((lv - rv).abs() <= FLOAT_EQ_EPS)),
                             BinaryOp::Gt => Ok(Value::Bool(lv > rv)),
                             BinaryOp::Lt => Ok(Value::Bool(lv < rv)),
-                            _ => unreachable!("Semantic analysis guarantees valid number ops"),
+                            _ => Err(RuntimeError::type_mismatch(*span)),
                         },
                         (Value::Str(ls), Value::Str(rs)) => match op {
                             BinaryOp::Add => {
@@ -693,10 +700,12 @@ impl<'a> Runtime<'a> {
                             BinaryOp::Eq => Ok(Value::Bool(ls == rs)),
                             BinaryOp::Gt => Ok(Value::Bool(ls > rs)),
                             BinaryOp::Lt => Ok(Value::Bool(ls < rs)),
-                            _ => unreachable!("Semantic analysis guarantees valid string ops"),
+                            _ => Err(RuntimeError::type_mismatch(*span)),
                         },
                         (Value::Str(ls), Value::Number(n)) => {
-                            assert!(matches!(op, BinaryOp::Add));
+                            if !matches!(op, BinaryOp::Add) {
+                                return Err(RuntimeError::type_mismatch(*span));
+                            }
                             let mut writer = LenWriter(0);
                             write!(writer, "{n}").unwrap();
                             let mut s =
@@ -706,7 +715,9 @@ impl<'a> Runtime<'a> {
                             Ok(Value::Str(ArenaCow::Owned(s)))
                         }
                         (Value::Number(n), Value::Str(rs)) => {
-                            assert!(matches!(op, BinaryOp::Add));
+                            if !matches!(op, BinaryOp::Add) {
+                                return Err(RuntimeError::type_mismatch(*span));
+                            }
                             let mut writer = LenWriter(0);
                             write!(writer, "{n}").unwrap();
                             let mut s =
@@ -719,31 +730,30 @@ impl<'a> Runtime<'a> {
                             BinaryOp::Eq => Ok(Value::Bool(lv == rv)),
                             BinaryOp::Gt => Ok(Value::Bool(lv && !rv)), // false < true
                             BinaryOp::Lt => Ok(Value::Bool(!lv & rv)),
-                            _ => unreachable!("Semantic analysis guarantees valid bool ops"),
+                            _ => Err(RuntimeError::type_mismatch(*span)),
                         },
                         (Value::Null, Value::Null) => match op {
                             BinaryOp::Eq => Ok(Value::Bool(true)),
                             BinaryOp::Gt | BinaryOp::Lt => Ok(Value::Bool(false)),
-                            _ => unreachable!("Semantic analysis guarantees valid null ops"),
+                            _ => Err(RuntimeError::type_mismatch(*span)),
                         },
                         (Value::Null, ..) | (.., Value::Null) => match op {
                             BinaryOp::Eq | BinaryOp::Gt | BinaryOp::Lt => Ok(Value::Bool(false)),
-                            _ => unreachable!("Semantic analysis guarantees valid null ops"),
+                            _ => Err(RuntimeError::type_mismatch(*span)),
                         },
-                        _ => {
-                            unreachable!("Semantic analysis guarantees matching operand types")
-                        }
+                        // Operands whose runtime types do not match (or have no such operator).
+                        _ => Err(RuntimeError::type_mismatch(*span)),
                     }
                 }
             },
 
-            Expr::Unary { op, expr, .. } => {
+            Expr::Unary { op, expr, span } => {
                 let v = self.eval_expr(expr)?;
                 match (op, v) {
                     (UnaryOp::Not, Value::Bool(b)) => Ok(Value::Bool(!b)),
                     (UnaryOp::Not, Value::Null) => Ok(Value::Bool(true)),
                     (UnaryOp::Minus, Value::Number(n)) => Ok(Value::Number(-n)),
-                    _ => unreachable!("Semantic analysis guarantees valid unary expressions"),
+                    _ => Err(RuntimeError::type_mismatch(*span)),
                 }
             }
             Expr::Array { elements, .. } => {
@@ -754,11 +764,11 @@ impl<'a> Runtime<'a> {
                 }
                 Ok(Value::Array(values))
             }
-            Expr::Index { array, index, index_span, .. } => {
+            Expr::Index { array, index, index_span, span } => {
                 let array_value = self.eval_expr(array)?;
                 let index_value = self.eval_expr(index)?;
                 let Value::Array(mut items) = array_value else {
-                    unreachable!("Semantic analysis guarantees only arrays can be indexed")
+                    return Err(RuntimeError::type_mismatch(*span));
                 };
 
                 let Value::Number(index_number) = index_value else {
@@ -780,9 +790,8 @@ impl<'a> Runtime<'a> {
                 let slot = mem::replace(slot, Value::Null);
                 Ok(slot)
             }
-            Expr::Member { .. } => {
-                unreachable!("Semantic analysis guarantees member access is always a function call")
-            }
+            // A member access that is not called has no value.
+            Expr::Member { span, .. } => Err(RuntimeError::type_mismatch(*span)),
             Expr::Call { .. } => self.eval_function_call(expr),
         }
     }
@@ -799,7 +808,8 @@ impl<'a> Runtime<'a> {
 
         let func_name = match callee {
             Expr::Var(name, ..) => *name,
-            _ => unreachable!("Semantic analysis guarantees callee is variable or member"),
+            // Only named functions and methods can be called (`f()()`, `a[0]()`).
+            _ => return Err(RuntimeError::type_mismatch(*span)),
         };
 
         if let Some(builtin) = GlobalBuiltin::from_name(func_name) {
@@ -901,7 +911,7 @@ impl<'a> Runtime<'a> {
             }
             GlobalBuiltin::Command => {
                 let Value::Str(program) = &arg_values[0] else {
-                    unreachable!("Semantic analysis guarantees string arg")
+                    return Err(RuntimeError::type_mismatch(span));
                 };
                 Ok(Value::Host(HostHandle::new_in(
                     self.frame,
@@ -934,7 +944,7 @@ impl<'a> Runtime<'a> {
         let receiver = self.eval_expr(object)?;
         match receiver {
             Value::Str(ref s) => match StringBuiltin::from_name(field) {
-                Some(..) => self.eval_string_member_call(s, field, args),
+                Some(..) => self.eval_string_member_call(s, field, args, span),
                 None => Err(RuntimeError::new_with_extras(
                     RuntimeErrorKind::TypeMismatch,
                     span,
@@ -952,7 +962,7 @@ impl<'a> Runtime<'a> {
                 )),
             },
             Value::Array(ref arr) => match ArrayBuiltin::from_name(field) {
-                Some(..) => self.eval_array_member_call(arr, field, args),
+                Some(..) => self.eval_array_member_call(arr, field, args, span),
                 None => Err(RuntimeError::new_with_extras(
                     RuntimeErrorKind::TypeMismatch,
                     span,
@@ -985,8 +995,7 @@ impl<'a> Runtime<'a> {
                     )),
                 },
             },
-            Value::Bool(..) => unimplemented!("Boolean methods not implemented yet"),
-            Value::Null => Err(RuntimeError::new_with_extras(
+            Value::Bool(..) | Value::Null => Err(RuntimeError::new_with_extras(
                 RuntimeErrorKind::TypeMismatch,
                 span,
                 field,
@@ -1126,6 +1135,7 @@ impl<'a> Runtime<'a> {
         array: &Vec<Value<'a>, &'a Arena>,
         field: &'a str,
         args: &'a ArgList<'a>,
+        span: Span,
     ) -> Result<Value<'a>, RuntimeError> {
         let array_builtin = ArrayBuiltin::from_name(field)
             .expect("Semantic analysis guarantees valid array method");
@@ -1134,7 +1144,7 @@ impl<'a> Runtime<'a> {
             ArrayBuiltin::Join => {
                 let sep = self.eval_expr(args.args[0])?;
                 let Value::Str(sep) = sep else {
-                    unreachable!("Semantic analysis guarantees string arg")
+                    return Err(RuntimeError::type_mismatch(span));
                 };
                 let result = ArrayBuiltin::join(array, &sep, self.frame);
                 Ok(Value::Str(ArenaCow::Owned(result)))
@@ -1193,6 +1203,7 @@ impl<'a> Runtime<'a> {
         s: &ArenaCow<'a>,
         field: &'a str,
         args: &'a ArgList<'a>,
+        span: Span,
     ) -> Result<Value<'a>, RuntimeError> {
         let string_builtin = StringBuiltin::from_name(field)
             .expect("Semantic analysis guarantees valid string method");
@@ -1206,7 +1217,7 @@ impl<'a> Runtime<'a> {
                         let s = StringBuiltin::slice(s, start, end, self.frame);
                         Ok(Value::Str(ArenaCow::Owned(s)))
                     }
-                    _ => unreachable!("Semantic analysis guarantees number args"),
+                    _ => Err(RuntimeError::type_mismatch(span)),
                 }
             }
             StringBuiltin::ToUppercase => {
@@ -1225,7 +1236,7 @@ impl<'a> Runtime<'a> {
                 let needle = self.eval_expr(args.args[0])?;
                 match needle {
                     Value::Str(n) => Ok(Value::Number(StringBuiltin::find(s, &n))),
-                    _ => unreachable!("Semantic analysis guarantees string arg"),
+                    _ => Err(RuntimeError::type_mismatch(span)),
                 }
             }
             StringBuiltin::Replace => {
@@ -1236,7 +1247,7 @@ impl<'a> Runtime<'a> {
                         let result = StringBuiltin::replace(s, &o, &n, self.frame);
                         Ok(Value::Str(ArenaCow::Owned(result)))
                     }
-                    _ => unreachable!("Semantic analysis guarantees string args"),
+                    _ => Err(RuntimeError::type_mismatch(span)),
                 }
             }
             StringBuiltin::ToNumber => Ok(Value::Number(StringBuiltin::to_number(s))),
@@ -1250,7 +1261,7 @@ impl<'a> Runtime<'a> {
                             .for_each(|s| collection.push(Value::Str(ArenaCow::Owned(s))));
                         Ok(Value::Array(collection))
                     }
-                    _ => unreachable!("Semantic analysis guarantees string arg"),
+                    _ => Err(RuntimeError::type_mismatch(span)),
                 }
             }
         }
@@ -1293,7 +1304,7 @@ impl<'a> Runtime<'a> {
                 }
             }
             Expr::Index { .. } => {
-                let (base_expr, base_var, index_exprs) = self.flatten_index_target(object);
+                let (base_expr, base_var, index_exprs) = self.flatten_index_target(object)?;
 
                 let mut evaluated_indices = Vec::with_capacity_in(index_exprs.len(), self.frame);
                 for (index_expr, index_span) in &index_exprs {
@@ -1376,7 +1387,7 @@ impl<'a> Runtime<'a> {
                 }
             }
             Expr::Index { .. } => {
-                let (base_expr, base_var, index_exprs) = self.flatten_index_target(object);
+                let (base_expr, base_var, index_exprs) = self.flatten_index_target(object)?;
 
                 let mut evaluated_indices = Vec::with_capacity_in(index_exprs.len(), self.frame);
                 for (index_expr, index_span) in &index_exprs {
@@ -1628,7 +1639,7 @@ impl<'a> Runtime<'a> {
         value: Value<'a>,
         span: Span,
     ) -> Result<(), RuntimeError> {
-        let (base_expr, base_var, index_exprs) = self.flatten_index_target(target);
+        let (base_expr, base_var, index_exprs) = self.flatten_index_target(target)?;
 
         let mut evaluated_indices = Vec::with_capacity_in(index_exprs.len(), self.frame);
         for (index_expr, index_span) in &index_exprs {
@@ -1674,10 +1685,11 @@ impl<'a> Runtime<'a> {
         unreachable!("Index assignment should return inside loop");
     }
 
+    #[allow(clippy::type_complexity)]
     fn flatten_index_target(
         &self,
         mut target: ExprRef<'a>,
-    ) -> (ExprRef<'a>, &'a str, Vec<(ExprRef<'a>, Span), &'a Arena>) {
+    ) -> Result<(ExprRef<'a>, &'a str, Vec<(ExprRef<'a>, Span), &'a Arena>), RuntimeError> {
         let mut indices = Vec::new_in(self.frame);
         loop {
             match target {
@@ -1687,9 +1699,10 @@ impl<'a> Runtime<'a> {
                 }
                 Expr::Var(name, ..) => {
                     indices.reverse();
-                    return (target, *name, indices);
+                    return Ok((target, *name, indices));
                 }
-                _ => unreachable!("Semantic analysis guarantees valid index assignment target",),
+                // Only a variable's own array can be written through (`f()[0] get 2`).
+                other => return Err(RuntimeError::type_mismatch(other.span())),
             }
         }
     }
